@@ -11,7 +11,7 @@ PROPS = {
         theorems=T("C16", "inv_init", "inv_step", "inv_reachable", "stream_refines", "no_fault", "no_double_free", "no_leak",
                    "expand_terminates", "expand_never_stuck", "to_string_eq", "to_string_reference", "text_rendering_std",
                    "moved_from_is_empty_stream", "moved_from_is_empty_stream_assign",
-                   "append_fault_safe", "append_char_fault_safe", "step_fault_safe", "signed_number_partial_append_witness",
+                   "append_fault_safe", "append_char_fault_safe", "step_fault_safe", "pinned_signed_number_partial_append", "repaired_signed_number_unchanged",
                    "pinned_moved_from_append_stuck", "pinned_move_assigned_from_append_stuck", "pinned_moved_from_keeps_size",
                    "pinned_moved_from_aliases", "repaired_same_histories"),
         rule="histories over a pool of 3 string_streams in raw storage, snapshot (size(), bytes or FNV digest of raw_buffer()[0,size()), "
@@ -47,7 +47,7 @@ MANIFEST_TEXT = {
              "across the in-object->heap switch and every doubling; destroying all streams leaves an empty heap; to_string = from_utf8/from_latin_1 of those "
              "bytes = the Unicode reference; the doubling loop terminates with the least alloc*2^k; a moved-from stream is in the default-constructed state "
              "and can be appended to, assigned to, destroyed. Defect found by the check and repaired: the moved-from stream kept size 5 / capacity 0 and "
-             "append never returned (proved as pinned_* witnesses on the unrepaired revision). Fault level: a failed append leaves everything unchanged.",
+             "append never returned (proved as pinned_* witnesses on the unrepaired revision). Fault level: every operation that throws (bad_alloc, unicode_error) leaves every stream showing its previous bytes.",
         design_ref="DESIGN.md section 3, C16",
         note="Trusted: Lean kernel + 3 standard axioms, Spec/ByteLog.lean as the meaning of 'plain byte-string model', the stream harness (ASan/UBSan/LSan, "
              "exact operator-new accounting), numeric renderings taken from the C library. Not modelled: size_t overflow, aliasing append of a stream's own buffer.",
